@@ -32,6 +32,9 @@ def build(r):
     if k == "none":
         return None
     if k == "aware":
+        if r.get("tzname"):
+            from zoneinfo import ZoneInfo
+            return datetime(*r["f"], tzinfo=ZoneInfo(r["tzname"]), fold=r["fold"])
         tz = timezone.utc if r.get("tz") == "utc" else timezone(timedelta(seconds=r["off"]))
         d = datetime(*r["f"], tzinfo=tz)
         return pd.Timestamp(d) if r.get("cls") == "pd" else d
